@@ -38,6 +38,8 @@ import numpy as np
 import pandas as pd
 
 ID = "C20"
+# computational entry points whose results are watched by the engine's retained-result oracle (mc/explore.py)
+RETAIN = [('hydrodiy.stat.sutils', 'pareto_front'), ('hydrodiy.stat.sutils', 'standard_normal'), ('hydrodiy.stat.sutils', 'lhs'), ('hydrodiy.plot.boxplot', 'boxplot_stats')]
 RULE = ("lhs: numpy.random.permutation/uniform replaced by scripted answers; every one of the n! "
         "permutations x 4 ranges x jitter corner patterns {all lo, all mid, all hi(-ulp), every single "
         "deviation}; 2-3 parameters: every tuple of permutations (small n) or one rotated permutation per "
